@@ -146,7 +146,28 @@ def corrupt(rnd, cmd, props, names, inflight, owner_mode):
 
 def plan(tier, seed):
     n = 900 if tier == 'quick' else 7000
-    return [{'seed': seed, 'idx': i} for i in range(n)]
+    return CORE + [{'seed': seed, 'idx': i} for i in range(n)]
+
+
+# a fixed core that does not depend on the seed: endpoint-owner mode, where uid / gid are restricted
+_OWNER_H = {'watchers': [{'name': 'a', 'numprocesses': 2, 'graceful_timeout': 1.0, 'warmup_delay': 0.3,
+                          'beh': [{'15': ['die', 0.4]}]},
+                         {'name': 'B b', 'numprocesses': 1, 'graceful_timeout': 0.2}],
+            'inflight': False, 'owner_mode': True, 'cwd_removed': False}
+CORE = [
+    {'seed': 0, 'idx': 10 ** 6 + 0, 'h': _OWNER_H, 'requests': [
+        ['set', {'name': 'a', 'options': {'warmup_delay': 0.2, 'numprocesses': 3, 'uid': 'nobody'}}, ['core:owner-mode-set-uid-last']],
+        ['set', {'name': 'a', 'options': {'uid': 'daemon'}}, ['core:owner-mode-set-uid-alone']],
+        ['set', {'name': 'B b', 'options': {'graceful_timeout': 0.5, 'gid': 'nogroup', 'numprocesses': 2}}, ['core:owner-mode-set-gid']],
+        ['add', {'name': 'nx', 'cmd': 'w_nx', 'options': {'numprocesses': 1, 'uid': 'daemon'}}, ['core:owner-mode-add-other-uid']],
+        ['add', {'name': 'ny', 'cmd': 'w_ny', 'start': True, 'options': {'uid': 12345, 'graceful_timeout': 2}}, ['core:owner-mode-add-other-uid']],
+        ['add', {'name': 'nz', 'cmd': 'w_nz', 'options': {'uid': 'root'}}, ['core:owner-mode-add-own-uid']],
+    ]},
+    {'seed': 0, 'idx': 10 ** 6 + 1, 'h': dict(_OWNER_H, inflight=True), 'requests': [
+        ['set', {'name': 'B b', 'options': {'numprocesses': 2, 'uid': 'nobody'}}, ['core:owner-mode-set-uid-last']],
+        ['add', {'name': 'nx', 'cmd': 'w_nx', 'options': {'uid': 'daemon'}}, ['core:owner-mode-add-other-uid']],
+    ]},
+]
 
 
 def gen_world(rnd):
